@@ -384,6 +384,14 @@ def _check_rows(model, table, ph, rows, ta, tol, enabled, out, stats):
                     stats["c09_boundary_skips"] += 1
     out.sig = ""
     if "C02" in E:
+        t = table.total.get(ph)
+        all_loss = sum(rows[n_]["Loss (W)"] for n_ in rows)
+        if t is not None and num(t.get("Power (W)")) and num(t.get("Loss (W)")):
+            if abs(t["Power (W)"] - src_power) > cons_tol + 1e-12 * abs(src_power) or abs(t["Loss (W)"] - all_loss) > cons_tol + 1e-12 * abs(all_loss):
+                for s_ in model.sources():
+                    out.sig = out.sig or row_sig(model.comps[s_])
+                out.append(("C02", "system-total-row", "phase %r System total: P=%r L=%r, sources deliver %r, all losses %r" % (ph, t["Power (W)"], t["Loss (W)"], src_power, all_loss)))
+                return
         if abs(src_power - (load_power + loss_sum)) > cons_tol + 1e-15:
             out.append(("C02", "system-conservation", "phase %r: sources %r != loads %r + losses %r (tol %g)" % (ph, src_power, load_power, loss_sum, cons_tol)))
             return
@@ -399,10 +407,13 @@ def expected_warnings(model, n, r, ph):
     if k not in ("Source", "RLoss", "VLoss") and conf and ph not in conf:
         return (frozenset(), frozenset())
     q = row_quantities(r)
+    hidden_tr = False
     if "Temp. rise (°C)" not in r or not num(r.get("Temp. rise (°C)")):
-        # temperature columns hidden (all rises zero): tr = 0; tp unknown here
+        # temperature columns hidden (no rise above zero): tr = 0 up to a
+        # convergence residue of either sign; tp unknown here
         q["tr"] = 0.0 if k != "Source" else None
         q["tp"] = None
+        hidden_tr = True
     lim = spec.get("lim") or {}
     exp, fuzzy = set(), set()
     for key in APPLICABLE[k]:
@@ -423,6 +434,8 @@ def expected_warnings(model, n, r, ph):
         for b in (l0, l1):
             if a != b and abs(a - b) < 1e-9 * max(abs(a), abs(b), 1e-30):
                 fuzzy.add(key)
+            if key == "tr" and hidden_tr and abs(b) < 1e-6:
+                fuzzy.add(key)  # a bound at zero against a value known only as 'about zero'
     return (frozenset(exp), frozenset(fuzzy))
 
 
